@@ -6,6 +6,10 @@ func init() { register("C13", checkC13) }
 
 // C13 — AOL counters and listings equal the real contents.
 func checkC13(p *Prog, r *Report) {
+	if csp := p.SSAPkg(Rel(compkeyPkg)); csp != nil {
+		checkCompkeyEncoder(p, r, func(rule, rest string) string { return rule + ":C13:" + rest }, csp)
+	}
+	checkAolExportLoopBounds(p, r, func(rule, rest string) string { return rule + ":C13:" + rest })
 	checkNoDroppedErrors(p, r, "C13", "x/aol/keeper, x/aol/types", func(fn *ssa.Function) bool { return InPkgs(fn, "x/aol/keeper", "x/aol/types") })
 	checkNoNilWrap(p, r, "C13", "x/aol/keeper, x/aol/types", func(fn *ssa.Function) bool { return InPkgs(fn, "x/aol/keeper", "x/aol/types") })
 	r.Explain = "Decided statically: D1 every counter update is paired, on every success path, with the entry write it counts, reads the counter under the same key it writes back, changes exactly one counter by exactly one and copies all other fields, and is dominated by the (non-)existence guard that prevents double counting; D2 each listing query iterates prefix.NewStore(store, FamilyPrefix ++ PartialEncode(key, n-1)) with the family's own prefix variable and key type, fixed components from request fields, and decodes prefix++suffix with the same key type; D4 single-item views use the family's accessors. Prefix exactness then follows from C18 (length-prefixed components). D5 list accessors decode each entry into a per-iteration variable."
